@@ -17,11 +17,16 @@ def model_check(ck, tier):
     for g in grid:
         r = tlc("Tiered", cfg="TieredMC.cfg", consts=dict(CONSTS, AllowOrphan="FALSE", **g), workers=8, timeout=2400, xmx="12g")
         ck.add_tlc("Tiered model check %s" % g, r, note="invariants ReadsCanonical DrainNeutral SizesBounded L1Unique")
+    # undrainable mirror entries: partial / complete drain failure, rejected inserts (orphans allowed, so DrainNeutral is vacuous)
+    for g in [dict(CapA=1, Hard=1, MaxOps=4, MaxPokes=2), dict(CapA=1, Hard=2, MaxOps=4 if tier == "quick" else 5, MaxPokes=2)]:
+        r = tlc("Tiered", cfg="TieredMC.cfg", consts=dict(CONSTS, AllowOrphan="TRUE", AllowBad="TRUE", **g), workers=8, timeout=2400, xmx="12g")
+        ck.add_tlc("Tiered model check with undrainable mirror entries %s" % g, r, note="invariants ReadsCanonical SizesBounded L1Unique")
 
 
-def generate(tier, capa, hard, n, depth, pokes, orphan=False, seed_off=0):
+def generate(tier, capa, hard, n, depth, pokes, orphan=False, seed_off=0, bad=False):
     r = tlc("Tiered", cfg="TieredGen.cfg",
-            consts=dict(CONSTS, CapA=capa, Hard=hard, MaxOps=depth, MaxPokes=pokes, AllowOrphan="TRUE" if orphan else "FALSE"),
+            consts=dict(CONSTS, CapA=capa, Hard=hard, MaxOps=depth, MaxPokes=pokes, AllowOrphan="TRUE" if orphan else "FALSE",
+                        AllowBad="TRUE" if bad else "FALSE"),
             simulate=n, depth=depth + 2, seed_=seed() * 31 + seed_off)
     return r
 
@@ -40,6 +45,7 @@ def replay_and_judge(ck, behaviours, capa, hard, tag, orphan=False):
     ck.add_tlc("KVTrace validation (%s)" % tag, r)
     events = [json.loads(l) for l in open(tpath)]
     # code -> spec: every run of a single-arm strategy is validated against Tiered.tla (TieredTrace.tla); MODEL-DRIFT only
+    has_bad = "TRUE" if any(st["t"] == "poke_bad" for b in behaviours for st in b["steps"]) else "FALSE"   # the family's own constant
     mpath = os.path.join(sd, "%s.%s.mstate.ndjson" % (ck.pid, tag))
     runs, cur, nb = [], None, 0
     with open(mpath, "w") as f:
@@ -53,7 +59,7 @@ def replay_and_judge(ck, behaviours, capa, hard, tag, orphan=False):
                 f.write(json.dumps({"b": cur, "op": e["op"], "hr": e["hr"], "vr": e["vr"], "lr": e["lr"]}) + "\n")
     if nb:
         r2 = vlib.tlc("TieredTrace", workers=4, env={"TRACE": mpath}, timeout=1200, xmx="6g",
-                      consts=dict(CONSTS, CapA=capa, Hard=hard, MaxOps=1000, MaxPokes=1000, AllowOrphan="TRUE"))
+                      consts=dict(CONSTS, CapA=capa, Hard=hard, MaxOps=1000, MaxPokes=1000, AllowOrphan="TRUE", AllowBad=has_bad))
         ck.add_tlc("TieredTrace: %d runs of the real engine validated against Tiered.tla (%s)" % (nb, tag), r2,
                    note="every step must be the model's action with the observed recent-write-tier residency, canonical versions and "
                         "document-cache membership after it; cache admission is inferred by TLC")
@@ -93,7 +99,7 @@ def replay_and_judge(ck, behaviours, capa, hard, tag, orphan=False):
                         f.write(json.dumps(dict(x, b=k2)) + "\n")
                     ncorr += 1
             r3 = vlib.tlc("TieredTrace", workers=2, env={"TRACE": cpath}, timeout=600, xmx="4g",
-                          consts=dict(CONSTS, CapA=capa, Hard=hard, MaxOps=1000, MaxPokes=1000, AllowOrphan="TRUE"))
+                          consts=dict(CONSTS, CapA=capa, Hard=hard, MaxOps=1000, MaxPokes=1000, AllowOrphan="TRUE", AllowBad=has_bad))
             ck.add_tlc("TieredTrace self-test: %d real runs with one corrupted observation each" % ncorr, r3)
             reach3 = {}
             for m in vlib.re.finditer(r'<<\s*"AT",\s*(\d+),\s*(\d+)\s*>>', r3.out):
